@@ -15,7 +15,7 @@ import (
 
 //verif:include ../dnsdata/rdb/zz_verif_model.go
 //verif:include ../db/zz_verif_world.go
-//verif:harness H10_echo property=C10 native=no quick=world=0,layout=2,edns=2,fam=1,cache=0;world=0,layout=0,edns=2,fam=2,cache=0;world=0,layout=1,edns=5,fam=1,cache=1;world=1,layout=2,edns=2,fam=1,cache=0;world=1,layout=0,edns=2,fam=1,cache=1 thorough=world=0,layout=2,edns=5,fam=2,cache=0;world=0,layout=1,edns=4,fam=1,cache=1;world=1,layout=0,edns=2,fam=2,cache=1;world=0,layout=0,edns=4,fam=1,cache=1;world=0,layout=1,edns=2,fam=2,cache=0;world=0,layout=2,edns=4,fam=2,cache=1;world=0,layout=2,edns=2,fam=0,cache=0;world=1,layout=1,edns=4,fam=1,cache=0
+//verif:harness H10_echo property=C10 native=no quick=world=0,layout=2,edns=2,fam=1,cache=0;world=0,layout=0,edns=2,fam=2,cache=0;world=0,layout=1,edns=5,fam=1,cache=1;world=1,layout=2,edns=2,fam=1,cache=0;world=1,layout=0,edns=2,fam=1,cache=1 thorough=world=1,layout=0,edns=2,fam=2,cache=1;world=0,layout=1,edns=2,fam=2,cache=0;world=0,layout=2,edns=5,fam=2,cache=0;world=0,layout=2,edns=2,fam=0,cache=0;world=1,layout=1,edns=4,fam=1,cache=0
 
 var verifC10Names = []string{"c.z.", "z.", "q.z.", "y.", "."}
 
